@@ -160,6 +160,8 @@ fn main() {
 		let journal = Journal::open(journal.as_deref());
 		let mut rep = Report::new();
 		(c.work)(&shard, &journal, &mut rep);
+		// the per-case watchdog only covers cases, not the (possibly long) writing of the report
+		common::stop_watchdog();
 		journal.clear();
 		if let Some(out) = out {
 			let j = rep.to_json(&out.with_extension("hashes"));
